@@ -7,16 +7,19 @@ package vh
 
 import (
 	"bytes"
+	"context"
 	"encoding/json"
 	"errors"
 	"fmt"
 	"io"
+	"net"
 	"net/http"
 	"os"
 	"path/filepath"
 	"reflect"
 	"strconv"
 	"sync"
+	"syscall"
 	"testing"
 	"time"
 
@@ -86,6 +89,7 @@ type hitRT struct {
 	respHdr  http.Header
 	payload  []byte
 	lastLen  int  // body length of the most recent request
+	kind     int  // which transport failure (case index)
 	warm     bool // the next exchange is the one before the observed one: a 200 whose body fails after five bytes
 }
 
@@ -113,6 +117,18 @@ func (rt *hitRT) RoundTrip(req *http.Request) (*http.Response, error) {
 		rt.first = req
 	}
 	if rt.c.Transport == "error" {
+		// the ways a transport fails, in turn: a plain error, the peer closing the connection before any answer (EOF), in the
+		// middle of one, a refused connection, a deadline
+		switch rt.kind % 5 {
+		case 1:
+			return nil, io.EOF
+		case 2:
+			return nil, io.ErrUnexpectedEOF
+		case 3:
+			return nil, &net.OpError{Op: "dial", Net: "tcp", Err: os.NewSyscallError("connect", syscall.ECONNREFUSED)}
+		case 4:
+			return nil, context.DeadlineExceeded
+		}
 		return nil, errors.New("scripted transport failure")
 	}
 	mk := func(code int, hdr http.Header, b *recBody) *http.Response {
@@ -141,7 +157,7 @@ func runHitCase(c *hitCase, seed int64) KV {
 	for i := range payload {
 		payload[i] = byte('a' + (int(seed)+i)%26)
 	}
-	rt := &hitRT{c: c, payload: payload, respHdr: http.Header{"Content-Type": {"text/x"}, "X-Multi": {"1", "2"}}}
+	rt := &hitRT{c: c, kind: int(seed), payload: payload, respHdr: http.Header{"Content-Type": {"text/x"}, "X-Multi": {"1", "2"}}}
 	opts := []func(*vegeta.Attacker){vegeta.Workers(1), vegeta.MaxWorkers(1), vegeta.MaxBody(int64(c.MaxBody)), vegeta.ChunkedBody(c.Chunked)}
 	// the Client option replaces the whole client, so the redirect policy goes after it
 	opts = append(opts, vegeta.Client(&http.Client{Transport: rt}))
